@@ -9,8 +9,8 @@ def J(scn, bound, deadline=60, **kw):
 
 PLANS = {
     "C01": {
-        "quick": [J("pubflow", "p=1,f=1,s=1", 30), J("pubflow", "f=2", 60), J("pubflowvol", "f=2,s=1", 60)],
-        "thorough": [J("pubflow", "p=2,f=2,s=2", 900)],
+        "quick": [J("pubflow", "p=1,f=1,s=1", 30), J("pubflow", "f=2", 60), J("pubflowvol", "f=1,s=1", 60), J("pubflowvol", "f=2", 60)],
+        "thorough": [J("pubflow", "p=2,f=2,s=2", 900), J("pubflowvol", "p=1,f=2,s=1", 400)],
     },
 }
 
@@ -24,8 +24,8 @@ PLANS["C03"] = {
     "thorough": [J("qos2out", "f=3,c=2,p=1", 900)],
 }
 PLANS["C05"] = {
-    "quick": [J("puborder", "p=1,f=1,s=1", 90), J("restartwrap", "c=1,f=1", 40), J("pubflowvol", "f=2,s=1", 60)],
-    "thorough": [J("puborder", "p=3,f=2,s=2", 900), J("restartwrap", "c=2,f=1,p=1", 400)],
+    "quick": [J("puborder", "p=1,f=1,s=1", 90), J("restartwrap", "c=1,f=1", 40), J("pubflowvol", "f=1,s=1", 60)],
+    "thorough": [J("puborder", "p=3,f=2,s=2", 900), J("restartwrap", "c=2,f=1,p=1", 400), J("pubflowvol", "f=2,s=1", 300)],
 }
 
 PLANS["C08"] = {
